@@ -24,7 +24,9 @@ AllFin(s) == \A i \in 1..Len(s) : IsFin(s[i])
 \* the merit function: sum over operands of (weight * (value - target))^2
 Merit(ops, w, t) == DSumSeq([i \in 1..Len(ops) |-> DSq(DMul(w[i], DSub(ops[i], t[i])))])
 \* its noise floor when operand values carry 2^-40 relative rounding noise
-Floor(ops, w, t) == DShift(DSumSeq([i \in 1..Len(ops) |-> DSq(DMul(w[i], Sum2(ops[i], t[i])))]), -80)
+\* (operand noise d = 2^-40 (|v|+|t|) changes (w (v - t))^2 by 2 w^2 |v - t| d + (w d)^2)
+Floor(ops, w, t) == DAdd(DShift(DSumSeq([i \in 1..Len(ops) |-> DSq(DMul(w[i], Sum2(ops[i], t[i])))]), -80),
+                         DShift(DSumSeq([i \in 1..Len(ops) |-> DMul(DSq(w[i]), DMul(DAbs(DSub(ops[i], t[i])), Sum2(ops[i], t[i])))]), -39))
 NearM(a, b, floor) == /\ IsFin(a) /\ IsFin(b)
                       /\ DLe(DAbs(DSub(a, b)), DAdd(DShift(Sum2(a, b), -40), floor))
 NearM30(a, b, floor) == /\ IsFin(a) /\ IsFin(b)
